@@ -95,6 +95,8 @@ def run(ctx, chk):
                 t, truth, _ = pa.facts[fi]
                 if t[0] == "in" and t[1][0] == "ld" and t[1][2] == st_status and len(t[2]) == 1:
                     cur_status = t[2][0]
+                elif t[0] == "icmp" and t[1] == "eq" and isinstance(t[2], tuple) and t[2][0] == "ld" and t[2][2] == st_status and P.is_const(t[3]) and truth:
+                    cur_status = t[3][1]
                 fi += 1
             if e.kind == "store" and ptr_key(e.args[0]) == (RES, read_off):
                 v = e.args[1]
